@@ -690,7 +690,7 @@ func symConv(dst *types.Basic, x value) value {
 			return symInt{wrapTerm(dk, x.t), dk}
 		}
 		if dk == types.Float64 {
-			return symF64{"((_ to_fp 11 53) RNE (to_real " + x.t + "))"}
+			return intTermToFloat(x.t)
 		}
 	case symF64:
 		if dk == types.Float64 {
@@ -705,7 +705,8 @@ func symConv(dst *types.Basic, x value) value {
 				lo := "((_ to_fp 11 53) RNE (- 9223372036854775808.0))"
 				hi := "((_ to_fp 11 53) RNE 9223372036854775808.0)"
 				inr := "(and (fp.geq " + x.t + " " + lo + ") (fp.lt " + x.t + " " + hi + "))"
-				tr := "(to_int (fp.to_real (fp.roundToIntegral RTZ " + x.t + ")))"
+				// through bit-vectors (fp.to_sbv): far easier for the solver than to_int/fp.to_real
+				tr := "(let ((b__ ((_ fp.to_sbv 64) RTZ " + x.t + "))) (ite (bvslt b__ #x0000000000000000) (- (bv2int b__) 18446744073709551616) (bv2int b__)))"
 				return symInt{"(ite " + inr + " " + tr + " (- 9223372036854775808))", dk}
 			}
 		}
@@ -731,3 +732,17 @@ func mathFloat64bits(f float64) uint64 {
 }
 
 func itoa(i int) string { return strconv.Itoa(i) }
+
+
+// intTermToFloat converts an integer term to float64 (round to nearest even). For
+// |n| < 2^70 the conversion goes through a bit-vector (int2bv + to_fp), which the
+// solver handles well; outside that range through the reals.
+func intTermToFloat(t string) value {
+	const lim = "1180591620717411303424" // 2^70
+	small := "(and (> " + t + " (- " + lim + ")) (< " + t + " " + lim + "))"
+	if X.branch(mkBool(small), "int-to-float-range") {
+		// two's complement on 72 bits holds every value of the range
+		return symF64{"((_ to_fp 11 53) RNE ((_ int2bv 72) " + t + "))"}
+	}
+	return symF64{"((_ to_fp 11 53) RNE (to_real " + t + "))"}
+}
